@@ -54,6 +54,44 @@ func runC06(c *Ctx) {
 		c.undecided("R1", "instance-floor", "", fmt.Sprintf("%d table rows, 36 confirmed by hand", len(m.Rows)))
 	}
 	c.ok("R1", "loop", p.Pos(m.LoopPos), "loop test: minPrec "+m.LoopOp.String()+" prec(current) in "+shortName(m.Climb))
+	// the loop stops only at its precedence test (or with an error)
+	if m.LoopIf != nil {
+		h := m.LoopIf.Block()
+		// the natural loop: blocks reachable from the body entry (not through the test) that can get back to the test
+		region := map[*ssa.BasicBlock]bool{}
+		for b := range reachableFrom([]*ssa.BasicBlock{h.Succs[0]}, map[*ssa.BasicBlock]bool{h: true}) {
+			if b == h || reachableFrom([]*ssa.BasicBlock{b}, nil)[h] {
+				region[b] = true
+			}
+		}
+		ek := EKOf(p)
+		var bad []string
+		for b := range region {
+			if b == h {
+				continue
+			}
+			for _, s := range b.Succs {
+				if region[s] || s == h {
+					continue
+				}
+				// leaving the loop body: only towards an error return
+				okExit := true
+				for x := range reachableFrom([]*ssa.BasicBlock{s}, nil) {
+					if r, isRet := x.Instrs[len(x.Instrs)-1].(*ssa.Return); isRet {
+						res := effectiveResults(r)
+						if ek.KindsAt(res[len(res)-1], FactsOf(m.Climb).At(x)).Has(KNil) {
+							okExit = false
+						}
+					}
+				}
+				if !okExit {
+					bad = append(bad, p.InstrPos(b.Instrs[len(b.Instrs)-1]))
+				}
+			}
+		}
+		sort.Strings(bad)
+		c.check(len(bad) == 0, "R1", "loop-exits", p.Pos(m.LoopPos), "the operator loop ends only when the next operator binds too loosely (or with an error)", "the operator loop can also be left successfully at "+strings.Join(bad, ", ")+": the grouping then depends on something other than the precedences (e.g. on layout), which the matrix does not model")
+	}
 	// every oracle operator must be in the table with an infix parselet
 	var infixOps []string
 	for tag := range c06Levels {
@@ -80,6 +118,7 @@ func runC06(c *Ctx) {
 		}
 	}
 	prattParselets(c, m)
+	leftOperandPassthrough(c, m)
 
 	// R2: the matrix
 	cells, bad := 0, 0
@@ -442,6 +481,23 @@ func assignTargetAcceptance(p *Program, f *ssa.Function) targetAcceptance {
 	}
 	cases := typeCasesOn(f, left)
 	F := FactsOf(f)
+	// the validation comes first: its first type test dominates the consumption of the operator and
+	// every successful return (a return that precedes it hands out an unvalidated node)
+	if len(cases) > 0 {
+		first := cases[0]
+		for _, x := range cases {
+			if x.Assert.Block().Dominates(first.Assert.Block()) {
+				first = x
+			}
+		}
+		if !dominatesInstr(first.Assert, consume) {
+			for _, rc := range p.successResults(f) {
+				if !dominatesInstr(first.Assert, rc.Ret) {
+					res.perType["any node (the successful return at "+p.InstrPos(rc.Ret)+" is not preceded by the target validation)"] = "accept"
+				}
+			}
+		}
+	}
 	for _, tn := range types_ {
 		// which case does *tn take? the first assertion (in dominance order) on that exact type
 		var tc *typeCase
@@ -637,4 +693,75 @@ func prattParselets(c *Ctx, m *prattModel) {
 			c.ok("R1", "rbp "+shortName(f), p.Pos(f.Pos()), describeRbp(r))
 		}
 	}
+}
+
+// leftOperandPassthrough: an infix parselet builds its node around the left operand it was given
+func leftOperandPassthrough(c *Ctx, m *prattModel) {
+	p := c.P
+	c.note("R5 left-operand-passthrough: the climbing loop hands each infix parselet the expression parsed so far; the grouping matrix assumes that this expression becomes, unchanged, the left child of the node the parselet returns. Obligation per infix parselet and successful return: the returned node has a field that is stored exactly the `left` parameter, or is the result of a helper that is passed `left` (a parselet that takes its left operand apart and re-nests it groups differently from what the precedences say).")
+	seen := map[*ssa.Function]bool{}
+	for _, r := range m.Rows {
+		f := r.Infix
+		if f == nil || seen[f] {
+			continue
+		}
+		seen[f] = true
+		if len(f.Params) < 2 {
+			c.undecided("R5", "left-operand "+shortName(f), p.Pos(f.Pos()), "infix parselet without a left-operand parameter")
+			continue
+		}
+		left := f.Params[1]
+		n := 0
+		for _, rc := range p.successResults(f) {
+			n++
+			v := effectiveResults(rc.Ret)[0]
+			for {
+				if mi, ok := v.(*ssa.MakeInterface); ok {
+					v = mi.X
+					continue
+				}
+				break
+			}
+			okPass := false
+			switch x := v.(type) {
+			case *ssa.Alloc:
+				for _, ref := range referrersOf(x) {
+					fa, ok := ref.(*ssa.FieldAddr)
+					if !ok {
+						continue
+					}
+					for _, rr := range referrersOf(fa) {
+						if st, ok := rr.(*ssa.Store); ok && st.Val == ssa.Value(left) {
+							okPass = true
+						}
+					}
+				}
+			case *ssa.Extract:
+				if call, ok := x.Tuple.(*ssa.Call); ok {
+					for _, a := range call.Call.Args {
+						if a == ssa.Value(left) {
+							okPass = true
+						}
+					}
+				}
+			case *ssa.Call:
+				for _, a := range x.Call.Args {
+					if a == ssa.Value(left) {
+						okPass = true
+					}
+				}
+			}
+			c.check(okPass, "R5", fmt.Sprintf("left-operand %s return#%d", shortName(f), n), p.InstrPos(rc.Ret), "the node is built around the given left operand", "this return of "+shortName(f)+" yields "+abbrev(rc.Value, 120)+", which does not have the given left operand as a child: the parselet re-nests what was already parsed, so the expression no longer means its fully parenthesised form")
+		}
+		if n == 0 {
+			c.undecided("R5", "left-operand "+shortName(f), p.Pos(f.Pos()), "no successful return found")
+		}
+	}
+}
+
+func abbrev(s string, n int) string {
+	if len(s) > n {
+		return s[:n] + "…"
+	}
+	return s
 }
